@@ -60,7 +60,7 @@ theorem mDead_mDead : mDead ∘ mDead = mDead := rfl
 
 /-- completions of DELETEs / server-side closes, all of the session called `n`: at most "`n` is dead" is booked -/
 theorem bookDone_dead (now : Nat) (n : Name) : ∀ (done : List (Tag × Nat)) (tbl : List MSess) (pend : List (Tag × Name)),
-    (∀ c ∈ done, ∀ x ∈ pend, x.1 = c.1 → x.2 = n ∧ ∀ k, c.1 ≠ .p k) →
+    (∀ c ∈ done, ∀ x ∈ pend, x.1 = c.1 → x.2 = n ∧ (∀ k, c.1 ≠ .p k) ∧ (∀ k, c.1 ≠ .u k)) →
     (bookDone now tbl pend done).1 = tbl ∨
     ((bookDone now tbl pend done).1 = monUpd tbl n mDead ∧ ∃ c ∈ done, ∃ x ∈ pend, x.1 = c.1) := by
   intro done
@@ -72,7 +72,7 @@ theorem bookDone_dead (now : Nat) (n : Name) : ∀ (done : List (Tag × Nat)) (t
     simp only [List.foldl_cons]
     have hsub : ∀ x, x ∈ (bookDone1 now (tbl, pend) c).2 → x ∈ pend := by
       intro x hx; rw [bookDone1_pend] at hx; exact (List.mem_filter.mp hx).1
-    have h' : ∀ c' ∈ rest, ∀ x ∈ (bookDone1 now (tbl, pend) c).2, x.1 = c'.1 → x.2 = n ∧ ∀ k, c'.1 ≠ .p k :=
+    have h' : ∀ c' ∈ rest, ∀ x ∈ (bookDone1 now (tbl, pend) c).2, x.1 = c'.1 → x.2 = n ∧ (∀ k, c'.1 ≠ .p k) ∧ (∀ k, c'.1 ≠ .u k) :=
       fun c' hc' x hx => h c' (List.mem_cons_of_mem _ hc') x (hsub x hx)
     have hrec := ih (bookDone1 now (tbl, pend) c).1 (bookDone1 now (tbl, pend) c).2 h'
     unfold bookDone at hrec
@@ -90,11 +90,12 @@ theorem bookDone_dead (now : Nat) (n : Name) : ∀ (done : List (Tag × Nat)) (t
         have := h c List.mem_cons_self (t, nm) hx ht
         right
         simp only [] at this
-        obtain ⟨hnm, hnp⟩ := this
+        obtain ⟨hnm, hnp, hnu⟩ := this
         subst hnm
         refine ⟨?_, (t, nm), hx, ht⟩
         cases hc : c.1 with
         | p k => exact absurd hc (hnp k)
+        | u k => exact absurd hc (hnu k)
         | q k => rfl
         | d k => rfl
         | c k => rfl
